@@ -130,6 +130,7 @@ def main():
     finally:
         sh("git -C /repo worktree remove --force %s; git -C /repo worktree prune" % wt)
         shutil.rmtree(wt, ignore_errors=True)
+        shutil.rmtree("/tmp/verif-out-" + os.path.basename(wt), ignore_errors=True)
     dst = os.path.join(V, "seeded", name)
     os.makedirs(dst, exist_ok=True)
     for f in os.listdir(src):
